@@ -79,6 +79,13 @@ Framed == CheckCuts =>
       /\ r.status \in {"done", "error", "short"}
       /\ IsPrefixOf(r.recs, st.recs)
 
+(* The same statement about the AS-BUILT reader (ReadFileAB: a declared length
+   that exceeds the data present is satisfied with the data that is present).
+   It must FAIL: its counterexample documents open finding F9. *)
+FramedAB ==
+  \A k \in 0..Len(st.out) :
+    LET r == ReadFileAB(SubSeq(st.out, 1, k), CMap) IN IsPrefixOf(r.recs, st.recs)
+
 AppendOnly == [][IsPrefixOf(st.out, st'.out)]_vars
 RejectAtomic == [][~acc' => st' = st]_vars
 IdsLegal == LegalOrder([i \in 1..Len(st.recs) |-> st.recs[i].id])
